@@ -63,6 +63,36 @@ pub fn cmd_heap(args: &[String]) {
         println!("heap {} delta={} gen={}", c.line(), d, if ok { "ok" } else { "failed" });
         return;
     }
+    if args.iter().any(|a| a == "--stdin") {
+        // one case line per input line (the cycle-closing plans built by check.py); every case is measured
+        // after a warm-up run of the same case, once alone and once with reset + second generation
+        use std::io::BufRead;
+        for p in 0..6 {
+            let c = Case { id: 0, proto: p, unsafe_m: false, ext: true, buf: true, min: 60, max: 300, mask: 0x7f,
+                rate_bits: 0.5f64.to_bits(), mode: Mode::Rand(p as u64), warm: 0, mu: false, muts: None };
+            let _ = measure(&c, false);
+        }
+        let stdin = std::io::stdin();
+        for line in stdin.lock().lines() {
+            let line = line.unwrap();
+            let line = line.trim();
+            if line.is_empty() {
+                continue;
+            }
+            let c = match Case::parse(line) {
+                Some(c) => c,
+                None => {
+                    println!("heap-bad-case {}", line);
+                    continue;
+                }
+            };
+            let _ = measure(&c, false);
+            let (d1, ok) = measure(&c, false);
+            let (d2, _) = measure(&c, true);
+            println!("heap {} twice=2 delta={} gen={}", c.line(), d1 + d2, if ok { "ok" } else { "failed" });
+        }
+        return;
+    }
     let n: u64 = crate::arg_val(args, "--cases", "500").parse().unwrap();
     let seed: u64 = crate::arg_val(args, "--seed", "1").parse().unwrap();
     let profile = crate::arg_val(args, "--profile", "default");
